@@ -399,6 +399,28 @@ def check_model_case_batch(rec, workdir=None):
                 for n in names:
                     _cmp(bad, stats, "batch-" + fn, n, float(out[mod.index(kind, n), j]), c["expect"][key][n],
                          {**ctx, "fn": fn, "column": j})
+    # the documented shape option of the generator (it sizes the array monitor_values fills): "multiple" must take
+    # the same (n, N) call, "single" the columns one at a time
+    from gotranx.codegen.base import Shape
+    for shape in (Shape.multiple, Shape.single):
+        try:
+            m2 = NumpyMod(ode, [], shape=shape)
+            with gx.quiet_np():
+                if shape == Shape.multiple:
+                    out = np.asarray(m2.ns["monitor_values"](T, S.copy(), P.copy()))
+                else:
+                    out = np.stack([np.asarray(m2.ns["monitor_values"](T[j], S[:, j].copy(), P[:, j].copy())) for j in range(N)], axis=1)
+        except Exception as ex:  # noqa: BLE001
+            bad.append({"tag": "batch-call", "fn": f"monitor_values[shape={shape.value}]", "exception": type(ex).__name__, "message": str(ex)[:200], **ctx})
+            continue
+        stats["calls"] += 1
+        if out.shape != (len(anames), N):
+            bad.append({"tag": "batch-shape", "fn": f"monitor_values[shape={shape.value}]", "got": list(out.shape), "want": [len(anames), N], **ctx})
+            continue
+        for j, c in enumerate(rec["cases"]):
+            for n in anames:
+                _cmp(bad, stats, "batch-monitor_values", n, float(out[m2.index("monitor", n), j]), c["expect"]["monitor"][n],
+                     {**ctx, "fn": f"monitor_values[shape={shape.value}]", "column": j})
     return stats, bad
 
 
